@@ -193,6 +193,25 @@ def rule_P1(ctx):
         while loop is not None and not isinstance(loop, ast.For):
             loop = getattr(loop, "_parent", None)
         problem = None
+        # a pipeline: the loop runs over a local list that an earlier loop filled - the offer
+        # is what that loop appended, for the entry that loop was looking at
+        for _hop in range(3):
+            if not (isinstance(arg, ast.Name) and loop is not None and isinstance(
+                    loop.target, ast.Name) and arg.id == loop.target.id
+                    and isinstance(loop.iter, ast.Name)):
+                break
+            lst_ = loop.iter.id
+            ds_ = _defs(f, lst_)
+            fills = [c2 for c2 in calls_in(f.node) if callee_name(c2) == "append" and isinstance(
+                c2.func, ast.Attribute) and isinstance(c2.func.value, ast.Name)
+                and c2.func.value.id == lst_ and c2.args]
+            if not ds_ or not all(isinstance(d.value, (ast.List, ast.Tuple)) and not d.value.elts
+                                  for d in ds_) or len(fills) != 1:
+                break
+            arg = fills[0].args[-1]
+            loop = fills[0]
+            while loop is not None and not isinstance(loop, ast.For):
+                loop = getattr(loop, "_parent", None)
         if not isinstance(arg, ast.Name) or loop is None or not isinstance(loop.target, ast.Name):
             problem = "offered value is not a loop-local task built from a staged entry"
         else:
@@ -537,6 +556,120 @@ def _classify_rof_write(ctx, prog, e):
         why_not = "the fail command is looked for among all outgoing transitions, not among " \
                   "the ones whose criteria were met"
     return kind, why_not
+
+
+# ====================================================================== P14 / F12
+def _machine_call(f):
+    mc = None
+    for n in ast.walk(f.node):
+        if isinstance(n, ast.Call) and callee_name(n) == "process_event" and \
+                "TaskStateMachine" in unparse(n.func):
+            mc = n
+    if mc is None:
+        raise AnalysisError("update_task_state does not call TaskStateMachine.process_event")
+    return mc
+
+
+def rule_P14(ctx):
+    """A report is either rejected with an error or handed to the task machine: between the
+    validation raises and TaskStateMachine.process_event there is no silent way out (early
+    return, or a condition around the machine call).  The table rules quantify over the event
+    sequences a task can see; a swallowed report takes the task out of those sequences (its
+    next report meets a record the tables never produce)."""
+    res = RuleResult("P14", "update_task_state drops no report: every path either raises or "
+                            "reaches the task state machine")
+    prog = ctx.prog
+    f = prog.function(UTS)
+    fg = FuncGuards(prog, f)
+    mc = _machine_call(f)
+    inst = (f.qualname, "machine call unconditional")
+    extra = _atoms_wo_validation(fg, mc)
+    alts = expand_alternatives(f, fg, extra) if extra else [[]]
+    cond = [alt for alt in alts if alt]
+    if cond and len(alts) > 1 and _complementary_alts(alts):
+        cond = []
+    if cond:
+        res.violated(inst, _f(
+            "P14", f, mc, "condition on the task machine call",
+            "the report reaches the task state machine only when %s: otherwise it is dropped "
+            "without an error, and the task's next report meets a record that no sequence of "
+            "accepted events produces" % fmt_atoms(cond[0])))
+    else:
+        res.holds(inst)
+    for r in ast.walk(f.node):
+        if isinstance(r, ast.Return) and textually_before(r, mc):
+            inst = (f.qualname, "early return", untag(norm_src(r)))
+            res.violated(inst, _f(
+                "P14", f, r, "return before the task machine",
+                "update_task_state returns before the task state machine has seen the report "
+                "(guards: %s): the report is dropped without an error, and the task's next "
+                "report meets a record that no sequence of accepted events produces"
+                % (", ".join(fmt_atoms(_atoms_wo_validation(fg, r))) or "none")))
+    return res
+
+
+def _complementary_alts(alts):
+    """Two single-atom alternatives that are each other's negation."""
+    if len(alts) != 2 or any(len(a) != 1 for a in alts):
+        return False
+    a, b = alts[0][0], alts[1][0]
+    neg = {"truthy": "falsy", "falsy": "truthy", "==": "!=", "!=": "==", "in": "notin",
+           "notin": "in"}
+    return neg.get(a[0]) == b[0] and a[1:] == b[1:]
+
+
+def rule_F12(ctx):
+    """The conductor fails the workflow on its own (self.request_workflow_status) from inside
+    update_task_state only as a consequence of a task completion that the task machine has
+    just accepted (status changed into a completed status): never from an error handler
+    around the machine, never for a report that changed nothing.  Otherwise a report that is
+    rejected or redelivered after the workflow has ended changes the final status."""
+    res = RuleResult("F12", "update_task_state requests a workflow status on its own only "
+                            "while processing a task completion that the task machine accepted")
+    prog = ctx.prog
+    f = prog.function(UTS)
+    fg = FuncGuards(prog, f)
+    mc = _machine_call(f)
+    completed = status_set(ctx, "COMPLETED_STATUSES")
+    n = 0
+    for c in calls_in(f.node):
+        if callee_name(c) != "request_workflow_status":
+            continue
+        n += 1
+        inst = (f.qualname, untag(norm_src(c)), n)
+        why = None
+        # inside a handler of a try that holds the machine call
+        up = c
+        while up is not None and up is not f.node:
+            par = getattr(up, "_parent", None)
+            if isinstance(up, ast.ExceptHandler) and isinstance(par, ast.Try) and any(
+                    mc is x for b in par.body for x in ast.walk(b)):
+                why = "it is made in the error handler around the task state machine: a " \
+                      "report that the machine rejects (a duplicate, an unknown event) fails " \
+                      "a workflow that may already have ended"
+            up = par
+        if why is None and not textually_before(mc, c):
+            why = "it is made before the task state machine has accepted the report"
+        if why is None:
+            alts = expand_alternatives(f, fg, fg.atoms(c))
+            for alt in alts:
+                changed = any(a[0] == "!=" and isinstance(a[2], tuple) and "status" in str(a[1])
+                              and "status" in str(a[2][1]) for a in alt)
+                done = any(a[0] == "in" and a[2] == completed for a in alt)
+                if not (changed and done):
+                    why = "it does not require that the task has just completed (status " \
+                          "changed into a completed status); guards: %s" % (
+                              ", ".join(fmt_atoms(alt)) or "none")
+                    break
+        if why is None:
+            res.holds(inst)
+        else:
+            res.violated(inst, _f(
+                "F12", f, c, "self-request " + untag(norm_src(c)),
+                "update_task_state requests a workflow status on its own, but %s" % why))
+    if not n:
+        res.holds((f.qualname, "no self-request"))
+    return res
 
 
 _PROG = {}
